@@ -105,7 +105,7 @@ def base_lines(name, perturb=None):
             if rng:
                 xyz = [v + int(round(rng.gauss(0, perturb[1]))) for v in xyz]
             is4su = thio and r.auth.name == "U"
-            lines.append({"m": 1, "het": 0, "ch": r.auth.chain, "num": r.auth.number, "ic": r.auth.icode or "",
+            lines.append({"m": 1, "het": 0 if r.is_nucleotide else 1, "ch": r.auth.chain, "num": r.auth.number, "ic": r.auth.icode or "",
                           "rn": "N7" if anon else "4SU" if is4su else r.auth.name,
                           "an": {"OP1": "O1P", "OP2": "O2P", "C7": "C5M"}.get(a.name, a.name.replace("'", "*")) if legacy
                           else "S4" if is4su and a.name == "O4" else a.name, "alt": "", "occ": 100, "x": xyz[0], "y": xyz[1], "z": xyz[2]})
@@ -174,7 +174,7 @@ def with_records(fmt, out, info):
     pdbx_struct_mod_residue rows for non-standard names; PDB - MODRES records.  info[key] = (is_nucleotide,
     letter) as the reader saw the base without any such record."""
     if fmt == "pdb":
-        text = atomtable.emit_pdb(out).split("\n")
+        text = atomtable.emit_pdb(out, ter_before_het=True).split("\n")
         mod, seen = [], set()
         for ln in out:
             key = (ln["ch"], ln["num"], ln["ic"])
@@ -271,7 +271,9 @@ class Presenter:
                     out.append(n)
             if st.get("records") and self.describable:
                 return _read_text(st["fmt"], with_records(st["fmt"], out, self.info)), inv
-            return _read_text(st["fmt"], atomtable.emit(st["fmt"], out)), inv
+            # (PDB texts in the layout of deposited files: TER closes the polymer of a chain, its hetero groups follow)
+            return _read_text(st["fmt"], atomtable.emit_pdb(out, ter_before_het=True) if st["fmt"] == "pdb"
+                              else atomtable.emit(st["fmt"], out)), inv
         # in-memory object: exact float transformation of the base object
         from rnapolis.tertiary import Residue3D, Structure3D
 
